@@ -338,6 +338,11 @@ def execute(world, *, problem=None, solver=None, params=None, reuse_solver=False
                 if name == "touch":
                     handles.append(solver.callbacks.register(CallbackType.ComputedStep, _touch))
         ex.x0_arg, ex.y0_arg = x0.copy(), y0.copy()
+        # fault positions and per-solve records count from solve.begin, also on a re-used device
+        problem.count = {c: 0 for c in problem.count}
+        problem.fired = []
+        problem.oob = []
+        problem.calls = []
         problem.armed = True
         ex.log(("solve.begin",))
         try:
@@ -360,5 +365,5 @@ def execute(world, *, problem=None, solver=None, params=None, reuse_solver=False
     ex.lin_counts = (LIN.n_factor, LIN.n_solve, LIN.n_obs_solve)
     ex.lin_nonfinite = LIN.nonfinite_returns
     if alias:
-        problem._check_handed("solve.end")
+        problem._check_handed("solve.end", full=True)
     return ex
